@@ -306,6 +306,7 @@ def stress(kind, rng, counters, violations, digests, samples):
 
 def run_shard(spec):
     rng = random.Random("C01:%s:%s" % (spec["seed"], spec["shard"]))
+    mgrmon.install_reach_counters()
     mgrmon.install_run_events()
     mgrmon.install_toposort(random.Random(rng.random()), contract_every=1)
     counters, digests, samples, violations, known = {}, set(), [], [], []
@@ -344,6 +345,7 @@ def run_shard(spec):
     counters.update({"monitor_" + k: v for k, v in mgrmon.COUNTS.items()})
     counters["container_writes_observed"] = C.STATS["writes"]
     counters["function_calls_observed"] = C.STATS["calls"]
+    counters["anchors_reached"] = dict(mgrmon.REACH)
     return {"evaluations": counters.get("histories", 0) + counters.get("stress_scenarios", 0),
             "digests": sorted(digests), "samples": samples, "counters": counters,
             "violations": violations, "known": known}
